@@ -478,6 +478,6 @@ def _run_model(case, rec, ctx, rng):
 
 META = {
     "technique": "runtime contracts on PoolSum.evaluate/doit/cleanup (+ free_symbols, subs, xreplace laws) judged against an explicit itertools.product reference, on generated sums and on every PoolSum of real aligned models",
-    "level_text": "Monitors wrap the real PoolSum methods; generated workloads cover six summand families, 0..4 indices, pools with singletons/duplicates/half-integers, nesting depth 1..3 incl. shadowed indices and substitution maps hitting free and bound symbols (symbol->number/symbol/expression); the PoolSums inside unaligned, axis-angle and DPD models of six reactions are checked through HelicityModel.expression. Held = no observed call disagreed with the explicit sum.",
+    "level_text": "Monitors wrap the real PoolSum methods; generated workloads cover six summand families, 0..4 indices, pools with singletons/duplicates/half-integers, nesting depth 1..3 incl. shadowed indices and substitution maps hitting free and bound symbols (symbol->number/symbol/expression); the PoolSums inside unaligned, axis-angle and DPD models of six reactions are checked through HelicityModel.expression. Held = no observed call disagreed with the explicit sum. Also: pools given as list / generator / iterator / map, pools of one repeated value, symbols free at an outer level and bound deeper, and look-alike sums with equal Python hash evaluated one after the other.",
     "level_note": "Reference is an explicit product sum evaluated with SymPy evalf at 30 digits on random rational points; equality is numeric at those points (a symbolic difference vanishing there would be missed).",
 }
